@@ -6,16 +6,57 @@ use std::path::Path;
 use syn::visit::Visit;
 use crate::util::*;
 
-/// Collects `Task::Variant` mentions.
+/// Collects `(Task::Variant, scheduling method)` pairs: the task is the first argument of a
+/// `.schedule(…)`, `.schedule_missing(…)` or `.schedule_and_finish_existing(…)` call; a
+/// `Task::Variant` mentioned anywhere else is recorded with method `Mention`.
 struct TaskRefs(Vec<String>);
 
+fn first_task(e: &syn::Expr) -> Option<String> {
+    struct T(Option<String>);
+    impl<'a> Visit<'a> for T {
+        fn visit_path(&mut self, p: &'a syn::Path) {
+            if self.0.is_none() && p.segments.len() == 2 && p.segments[0].ident == "Task" {
+                self.0 = Some(p.segments[1].ident.to_string());
+            }
+        }
+    }
+    let mut t = T(None);
+    t.visit_expr(e);
+    t.0
+}
+
+impl TaskRefs {
+    fn push(&mut self, task: &str, method: &str) {
+        let v = format!("(.{task}, .{method})");
+        if !self.0.contains(&v) {
+            self.0.push(v);
+        }
+    }
+}
+
 impl<'ast> Visit<'ast> for TaskRefs {
+    fn visit_expr_method_call(&mut self, m: &'ast syn::ExprMethodCall) {
+        let name = m.method.to_string();
+        let method = match name.as_str() {
+            "schedule" => Some("Schedule"),
+            "schedule_missing" => Some("ScheduleMissing"),
+            "schedule_and_finish_existing" => Some("ScheduleAndFinishExisting"),
+            _ => None,
+        };
+        if let (Some(method), Some(arg)) = (method, m.args.first()) {
+            if let Some(t) = first_task(arg) {
+                self.push(&t, method);
+                // do not descend into the argument again
+                self.visit_expr(&m.receiver);
+                return;
+            }
+        }
+        syn::visit::visit_expr_method_call(self, m);
+    }
     fn visit_path(&mut self, p: &'ast syn::Path) {
         if p.segments.len() == 2 && p.segments[0].ident == "Task" {
             let v = p.segments[1].ident.to_string();
-            if !self.0.contains(&v) {
-                self.0.push(v);
-            }
+            self.push(&v, "Mention");
         }
         syn::visit::visit_path(self, p);
     }
@@ -74,11 +115,11 @@ fn arm_table(file: &syn::File, method: &str) -> BTreeMap<String, Vec<String>> {
 }
 
 fn emit_fn(out: &mut String, name: &str, ev_ty: &str, variants: &[String], table: &BTreeMap<String, Vec<String>>) {
-    out.push_str(&format!("def {name} : {ev_ty} → List TaskKind\n"));
+    out.push_str(&format!("def {name} : {ev_ty} → List (TaskKind × SchedMethod)\n"));
     let default = table.get("_").cloned().unwrap_or_default();
     for v in variants {
         let tasks = table.get(v).cloned().unwrap_or_else(|| default.clone());
-        let l = tasks.iter().map(|t| format!(".{t}")).collect::<Vec<_>>().join(", ");
+        let l = tasks.join(", ");
         out.push_str(&format!("  | .{v} => [{l}]\n"));
     }
     out.push('\n');
@@ -101,6 +142,7 @@ pub fn run(repo: &Path) -> String {
         out.push_str(&format!("  | {t}\n"));
     }
     out.push_str("deriving DecidableEq, Repr\n\n");
+    out.push_str("/-- How a task is put on the queue: `TaskQueue::schedule` (replace, keep the sooner time),\n`schedule_missing` (only if not pending or running), `schedule_and_finish_existing`; `Mention` = the task\nis named outside such a call. -/\ninductive SchedMethod where\n  | Schedule\n  | ScheduleMissing\n  | ScheduleAndFinishExisting\n  | Mention\nderiving DecidableEq, Repr\n\n");
     out.push_str("/-- `enum CertAuthEvent` (events.rs). -/\ninductive CaEvent where\n");
     for t in &ca_events {
         out.push_str(&format!("  | {t}\n"));
@@ -143,9 +185,9 @@ pub fn run(repo: &Path) -> String {
     }
     out.push_str("deriving DecidableEq, Repr\n\n");
     out.push_str("/-- Tasks scheduled by each `RepositoryManager` method. -/\n");
-    out.push_str("def pubdMethodTasks : PubdMethod → List TaskKind\n");
+    out.push_str("def pubdMethodTasks : PubdMethod → List (TaskKind × SchedMethod)\n");
     for (m, ts) in &methods {
-        let l = ts.iter().map(|t| format!(".{t}")).collect::<Vec<_>>().join(", ");
+        let l = ts.join(", ");
         out.push_str(&format!("  | .{} => [{l}]\n", lean_ident(m)));
     }
     out.push_str("\nend KM.Generated\n");
